@@ -269,5 +269,61 @@ prop(
     assumptions=["only the listed syntactic forms reach stdout/stderr from the package's own code (no reflection / unsafe tricks); dependencies are covered by the runtime capture only on the histories explored"],
 )
 
+QUERY_TB = [KERNEL, AXIOMS, TDIFF, HOOKS, "the auditing in-memory DataStore of the harness (per-handle open/seek/read/close log, use-after-close / concurrent-use / double-close detection, concurrent-read gauge, k-th-call faults)",
+            "modelled, not verified: goroutine scheduling, channels, sync primitives and context of the query pipeline; the Lean models are hand-written and tied by differential / schedule exploration, not by the translator"]
+
+prop(
+    "C20",
+    lean_modules=["BloomVerif.Lemmas.Cursor", "BloomVerif.Props.C20"],
+    technique="Lean 4 proof on the cursor LTS (Next false is stable, a decided terminal state is immutable, Err is correct at the deciding step, Close idempotent) + schedule exploration of Next/Close/cancel/failures on the real cursor",
+    design_ref="DESIGN.md section 4 C20",
+    text="Machine-checked over every event sequence of the cursor LTS: once Next has returned false no row is produced again; a decided terminal state never changes (Close after the end, repeated Close); at the step that decides it, Err is nil only if nothing failed, "
+         "is the context error if the Query context was canceled when Close or the terminating Next ran, and otherwise carries every recorded failure (none can be recorded later: the pipeline has exited). Partial: 'Next eventually returns false' is liveness, monitored. "
+         "Schedules with cancel/Close at every position (also concurrently with Next), stalls, OpenFile/Read/iterator failures and never-started/started/stopped engines are run on the real cursor.",
+    trusted_base=QUERY_TB,
+    assumptions=["'canceled' = the Query context was done before the deciding call began (a cancellation racing with a clean completion may report either)"],
+)
+
+prop(
+    "C21",
+    lean_modules=["BloomVerif.Lemmas.Cursor", "BloomVerif.Props.C21"],
+    technique="Lean 4 proof on the handle-pool model (exclusive lending, a lent handle is never closed by others, every handle closed exactly once after teardown) + exact differential driving of the real pool + resource audit after every query schedule",
+    design_ref="DESIGN.md section 4 C21",
+    text="Machine-checked for every operation sequence obeying the reader discipline: acquire only returns an idle or a new handle, a lent handle keeps its status until its holder hands it back, and after closeAll with nothing lent every opened handle is closed exactly once. "
+         "Partial: goroutine exit, iterator return and the semaphore are runtime facts - after every schedule the harness checks zero open handles, no use-after-close / concurrent use / double close, the goroutine count back at its baseline and no semaphore slot taken. "
+         "The real fileHandlePool is driven through random operation sequences and compared handle-for-handle with the model.",
+    trusted_base=QUERY_TB, assumptions=["readers hand back only handles they hold (true of evaluateBlockFilters / processDataBlock by inspection; breaches show up as MISUSE entries of the auditing store)"],
+)
+
+prop(
+    "C22",
+    lean_modules=["BloomVerif.Lemmas.Cursor", "BloomVerif.Props.C22"],
+    technique="Lean 4 proof on the slot LTS (reads only while a slot is held; held slots never exceed the capacity; a blocked worker holds none) + measured concurrent reads across concurrent queries with a stalled consumer",
+    design_ref="DESIGN.md section 4 C22",
+    text="Machine-checked for any number of workers of any number of queries: reads in progress <= slots held <= MaxQueryConcurrency in every reachable state, and a worker blocked on delivery or dispatch holds no slot. "
+         "Partial: 'other queries complete' is liveness, sampled: with capacities 1, 2, 3, several concurrent queries and one consumer that stops reading, the others must finish and the auditing store's maximum of concurrent reads must stay within the cap.",
+    trusted_base=QUERY_TB, assumptions=["the worker programs toggle their slot as modelled (acquire before the filter pass / scan, release before blocking sends): tied only by the measured read gauge"],
+)
+
+prop(
+    "C23",
+    lean_modules=["BloomVerif.Props.C23"],
+    technique="Lean 4 proof on the read-plan model (at most once, all-or-none per file, skipped blocks are not read) + exact comparison of Results.Stats with the plan computed from model/filter verdicts, with failures injected",
+    design_ref="DESIGN.md section 4 C23",
+    text="Machine-checked for the failure-free plan: each evaluated block is listed at most once, a file lists all or none of its prefilter-surviving blocks, a skipped block is not among the row reads. On real layouts the harness computes prefilter verdicts with the Lean model and filter verdicts "
+         "with the files' own filters, and compares BlockStats (skipped/processed per block), rows processed, totals and RowsMatched on clean completion; with OpenFile/Read/iterator failures it checks at-most-once, all-or-none, zero for skipped and that every returned row's block is listed.",
+    trusted_base=QUERY_TB, assumptions=["'all or none' is judged for queries that were not canceled or closed early (DESIGN.md section 3)"],
+)
+
+prop(
+    "C24",
+    lean_modules=["BloomVerif.Props.C24"],
+    technique="Lean 4 proof on the read-plan model (open requires surviving blocks and a passing file filter; a row read requires prefilter and block-filter pass; no region read without conditions) + comparison of every read extent of the auditing store with the plan",
+    design_ref="DESIGN.md section 4 C24",
+    text="Machine-checked for the plan; on real layouts every OpenFile and every successful read extent [offset, length) logged by the auditing DataStore during fault-free, uncancelled queries must be explained by the plan: only planned files are opened, row data is read only of blocks the plan scans, "
+         "the block filter region is read only when the query has bloom/regex conditions and a candidate block has a section, and every extent lies inside a declared row-data extent or the filter region. The chunk bounds themselves are proved under C19.",
+    trusted_base=QUERY_TB, assumptions=["'no bloom or regex conditions' = both expressions absent (DESIGN.md section 3)"],
+)
+
 # Properties not claimed, with the reason (kept current; see DESIGN.md).
 NOT_CLAIMED = {}
